@@ -12,7 +12,7 @@ from ..ref import quat as rq
 PROP = "C09"
 LEVEL = "exploration"
 SHARDS = {"quick": 2, "thorough": 16}
-ROUTES = ["Quaternion.product", "Quaternion.__mul__", "Quaternion.__matmul__", "Quaternion.__mul__(Quaternion)",
+ROUTES = ["Quaternion.normalize", "Quaternion.product", "Quaternion.__mul__", "Quaternion.__matmul__", "Quaternion.__mul__(Quaternion)",
           "orientation.q_prod", "Quaternion.conjugate", "Quaternion.inverse", "Quaternion.inv", "Quaternion.mult_L",
           "Quaternion.mult_R", "orientation.q_mult_L", "orientation.q_mult_R", "orientation.q_conj",
           "Quaternion(order=S)", "QuaternionArray(order=S)", "associativity", "norm-multiplicative"]
@@ -148,6 +148,35 @@ def check(case, ctx):
         L, Rm = out.value
         ctx.le("q_mult_L(a) b = a b (unit a)", rel(L @ ub, uab, 1.0), REL, route="orientation.q_mult_L")
         ctx.le("q_mult_R(b) a = a b (unit b)", rel(Rm @ ua, uab, 1.0), REL, route="orientation.q_mult_R")
+    # an object normalised in place must expose ONE consistent unit quaternion through every view of it
+    r = "Quaternion.normalize"
+    for order in ("H", "S"):
+        raw = b.copy() if order == "H" else np.r_[b[1:], b[0]]
+
+        def norm_obj():
+            o_ = Q(raw.copy(), versor=False, order=order)
+            o_.normalize()
+            return o_
+        out = call(norm_obj)
+        if not ctx.returned(out, route=r):
+            continue
+        Bn = out.value
+        ub_ = b / np.linalg.norm(b)
+        stored = ub_ if order == "H" else np.r_[ub_[1:], ub_[0]]
+        views = call(lambda: (np.array(np.asarray(Bn), float), np.array(Bn.A, float), np.array(Bn.to_array(), float),
+                              np.array([Bn.w, Bn.x, Bn.y, Bn.z], float), bool(Bn.is_versor())))
+        if ctx.returned(views, route=r):
+            arr, A_, ta, wxyz, isv = views.value
+            ctx.le("after normalize(): array data, .A and to_array() agree and hold the unit quaternion", max(np.abs(arr - stored).max(), np.abs(A_ - stored).max(), np.abs(ta - stored).max()), 4e-16,
+                   {"array": arr, "A": A_, "expected": stored, "order": order}, route=r)
+            ctx.le("after normalize(): w, x, y, z are those of the unit quaternion", np.abs(wxyz - ub_).max(), 4e-16, route=r)
+            ctx.ok("after normalize(): is_versor()", isv, route=r)
+        if order == "H":
+            uab2 = rq.qmul(aa, ub_)
+            prods2 = call(lambda: (np.array(A.product(Bn), float), np.array(A * Bn, float), np.array(o.q_prod(aa.copy(), Bn), float), np.array(Bn.mult_R() @ aa, float)))
+            if ctx.returned(prods2, route=r):
+                for nm, val in zip(("product(obj)", "* obj", "q_prod(a, obj)", "obj.mult_R() @ a"), prods2.value):
+                    ctx.le("a normalised object used as right operand multiplies like its unit quaternion", rel(val, uab2, na), REL, {"via": nm, "got": val, "ref": uab2}, route=r)
     # scalar-last twin
     aS = np.r_[aa[1:], aa[0]]
     out = call(lambda: Q(aS.copy(), versor=versor, order="S"))
